@@ -797,8 +797,12 @@ func (ts tasks) responses(rpcLog RPCLogger) jmessages {
 		if rsp.ID == nil {
 			rsp.ID = json.RawMessage("null")
 		}
-		if task.m == nil {
-			// No method was ever assigned for this task, so it was never run.
+		if task.ctx == nil {
+			// No context was attached to this task, so it was rejected before
+			// it reserved its ID (for example as a duplicate) and must not
+			// release the reservation of the request that does hold that ID.
+			// A task that was given a context but no handler (method not
+			// found) does hold a reservation, and must release it.
 			rsp.err = errTaskNotExecuted
 		}
 		if task.err == nil {
